@@ -87,6 +87,24 @@ def addr_array_getter(addrs):
     return it + [("PUSH", 0x40 + 32 * len(addrs)), "PUSH0", "RETURN"]
 
 
+def fuzz_selector_getter(entries):
+    """returns FuzzSelector[] = [(target, bytes4[] selectors)] for the target stored in slot 0; entries = list of sig lists"""
+    words = [0x20, len(entries)]
+    offs, structs, cur = [], [], 32 * len(entries)
+    for sigs in entries:
+        offs.append(cur)
+        st = ["ADDR", 0x40, len(sigs)] + [int.from_bytes(e2e.selector(s), "big") << 224 for s in sigs]
+        structs.append(st)
+        cur += 32 * len(st)
+    words += offs
+    for st in structs:
+        words += st
+    it = []
+    for k, w in enumerate(words):
+        it += ([("PUSH", 0), "SLOAD"] if w == "ADDR" else [("PUSH", w, 32) if w >= (1 << 200) else ("PUSH", w)]) + [("PUSH", 32 * k), "MSTORE"]
+    return it + [("PUSH", 32 * len(words)), "PUSH0", "RETURN"]
+
+
 def mk_case(seed, k, tier):
     r = random.Random(f"c15-{seed}-{k}")
     nf = r.choice([1, 2, 2, 3])
@@ -115,6 +133,13 @@ def handmade():
         out.append(dict(fns=["setA(uint256)", "setB(uint256)"], inv="nested!(x==5&&y==7)", K=0, depth=d, senders=None, k=f"setABn-d{d}", seed=0))
         out.append(dict(fns=["setB(uint256)", "setA(uint256)"], inv="nested!(x==5&&y==7)", K=0, depth=d, senders=None, k=f"setBAn-d{d}", seed=0))
         out.append(dict(fns=["setA(uint256)", "setB2(uint256)"], inv="nested!(x==5&&y==7)", K=0, depth=d, senders=None, k=f"setAB2n-d{d}", seed=0))
+        # selector filters (several FuzzSelector entries for the same contract are a union)
+        out.append(dict(fns=["inc()", "setY(uint256)", "dec()"], inv="x+y!=K", K=10, depth=2, senders=None, k=f"tsel-union-d{d}", seed=0,
+                        target_selectors=[["inc()"], ["setY(uint256)"]]))
+        out.append(dict(fns=["inc()", "setY(uint256)", "dec()"], inv="x+y!=K", K=10, depth=2, senders=None, k=f"tsel-one-d{d}", seed=0,
+                        target_selectors=[["setY(uint256)", "dec()"]]))
+        out.append(dict(fns=["inc()", "setY(uint256)"], inv="x+y!=K", K=10, depth=2, senders=None, k=f"xsel-d{d}", seed=0,
+                        exclude_selectors=[["inc()"], ["x()"]]))
         out.append(dict(fns=["unlock()", "inc()"], inv="x!=K", K=77, depth=d, senders=None, k=f"unlock-d{d}", seed=0))
         out.append(dict(fns=["inc()", "trap(uint256)"], inv="x<K", K=10, depth=d + 1, senders=None, k=f"trap-d{d+1}", seed=0))
     return out
@@ -126,7 +151,10 @@ def build(case):
     tfn = [("setUp()", e2e.create_from_data("tgt", store_slot=0)), ("invariant_i()", INVARIANTS[case["inv"]](case["K"]))]
     ts, xs = [], []
     sd = case["senders"]
-    if sd:
+    tsel = case.get("target_selectors")
+    xsel = case.get("exclude_selectors")
+    if sd or tsel or xsel:
+        sd = sd or ("none",)
         if sd[0] in ("target", "both"):
             ts = list(sd[1])
         if sd[0] == "exclude":
@@ -136,7 +164,8 @@ def build(case):
         # forge-std's StdInvariant always provides all six getters (halmos reads them all or none)
         tfn += [("targetSenders()", addr_array_getter(ts)), ("excludeSenders()", addr_array_getter(xs)),
                 ("targetContracts()", addr_array_getter([])), ("excludeContracts()", addr_array_getter([])),
-                ("targetSelectors()", addr_array_getter([])), ("excludeSelectors()", addr_array_getter([]))]
+                ("targetSelectors()", fuzz_selector_getter(tsel) if tsel else addr_array_getter([])),
+                ("excludeSelectors()", fuzz_selector_getter(xsel) if xsel else addr_array_getter([]))]
     test = e2e.Spec("InvT", fns=tfn, data={"tgt": target.creation()})
     return test, target, ts, xs
 
@@ -156,7 +185,14 @@ def run_case(arg):
             return rec.events, stats
         addr = 0xAAAA0002
         state = oracle.post_setup(test, address_oracle=[addr])
-        tg = invoracle.Target(addr, target, [s for s in target.sigs()])
+        callable_sigs = [s for s in target.sigs()]
+        if case.get("target_selectors"):
+            allowed = {s for ent in case["target_selectors"] for s in ent}
+            callable_sigs = [s for s in callable_sigs if s in allowed]
+        if case.get("exclude_selectors"):
+            banned = {s for ent in case["exclude_selectors"] for s in ent}
+            callable_sigs = [s for s in callable_sigs if s not in banned]
+        tg = invoracle.Target(addr, target, callable_sigs)
         truth = invoracle.ground_truth(state, [tg], "invariant_i()", case["depth"], ts, xs, cap=20 if tier == "quick" else 90)
         rec.events.append(("solver", truth.solver_time, "portfolio"))
         stats[f"truth_{truth.status}"] = 1
